@@ -1153,6 +1153,11 @@ def main(chk: Check):
         # a fallback request must not make later plain requests of the same helper use install(1)
         ([], [("real",), ("say", 1, ["must not be asked"])],
          [("doexe", True, "--dest=/usr '--insoptions=-m a=r'", ["a"]), ("doexe", True, "--dest=/usr", ["b"])], None),
+        # (seed 8) `c32env mkdir` on a directory that exists keeps its contents
+        ([("usr/a", "d")], [("emul",), ("emul",)],
+         [("dodir", True, "'--diroptions=-m a=r'", ["/usr/share/doc"]), (ENV_CMD, True, "", ["mkdir", "usr"]),
+          ("dodir", True, "'--diroptions=-m a=r'", ["/usr/share/doc"]), (ENV_CMD, True, "", ["mkdir", "usr/a/b"]),
+          ("dodoc", True, "--dest=/usr/share", ["e.1"])], None),
         # (seed 24) a stream cut right after the header of a c32env request: no arguments -> IndexError in
         # the pseudo-helper -> one "internal failure" reply, daemon torn down
         ([], [], [("dodoc", True, "--dest=/usr --diroptions=-m0700 --insoptions=-m0755", ["a", "b", "e.1", "dd"]),
